@@ -23,7 +23,9 @@ RULE = ('(crash) for every environment of the alphabet (1-3 tasks; statuses WAIT
         'prefix length b in [0, size), a zero-filled tail at every b, the missing file and a directory in its place [thorough: every '
         'single-byte substitution by 0x00, 0x2e, 0x80, 0xff when the result is unreadable]; read_env must not raise, the damaged task '
         'must be absent, every intact DONE task with an output directory must come back equal to what was written and no other task '
-        'may be DONE; (history) BFS to depth 3 over {write_env(E_i), crash during the write of task k of E_i at byte b, delete file}: '
+        'may be DONE; (real write path) for 5 pairs (entry on disk, entry being written) the new entry is written by the real write_env in a '
+        'forked child limited to k bytes of file size, for every k: read_env must give nothing, the old entry or the complete new entry, never '
+        'a mixture; (history) BFS to depth 3 over {write_env(E_i), crash during the write of task k of E_i at byte b, delete file}: '
         'state = bytes on disk; after each step read_env equals the reference dictionary of fully written DONE entries; non-trivial = '
         'crash states with 0 < b < size, and histories with at least one crash or overwrite')
 ASSUMPTIONS = ['crash model: open(path, "wb") truncates, then a prefix of the new content reaches the disk (optionally with a zero-filled tail)',
@@ -300,6 +302,70 @@ def job_history(args):
     return rep
 
 
+REAL_PAIRS = [
+    # (entry on disk from an earlier run, entry being written when the job is killed / the disk fills up)
+    ((('t0', 'DONE', True, 'nested', 1),), (('t0', 'FAILED', True, 'nested', 2),)),
+    ((('t0', 'DONE', True, 'int', 1),), (('t0', 'DONE', True, 'int', 2),)),
+    ((('t0', 'DONE', True, 'nested', 1),), (('t0', 'DONE', True, 'array', 2),)),
+    ((('t0', 'FAILED', True, 'int', 1),), (('t0', 'DONE', True, 'nested', 2),)),
+    ((('t0', 'DONE', True, 'dataset', 1),), (('t0', 'SKIPPED', True, 'dataset', 2),)),
+]
+
+
+def job_real_crash(pair):
+    """Crash injected into the REAL write path: the new entry is written by the real write_env in a forked child whose
+    file-size limit (RLIMIT_FSIZE) is k bytes, for every k: the write is cut after exactly k bytes whatever way the file is opened."""
+    import resource
+    import signal
+    old_spec, new_spec = pair
+    rep = Report()
+    root = tempfile.mkdtemp(prefix='vf_c14x_')
+    try:
+        name = old_spec[0][0]
+        path = os.path.join(root, name, FILENAME)
+        do_write(root, new_spec)
+        with open(path, 'rb') as fil:
+            new_blob = fil.read()
+        do_write(root, old_spec)
+        with open(path, 'rb') as fil:
+            old_blob = fil.read()
+        old_ref, new_ref = expected(root, old_spec), expected(root, new_spec)
+        for cut in range(0, len(new_blob) + 1):
+            with open(path, 'wb') as fil:
+                fil.write(old_blob)
+            pid = os.fork()
+            if pid == 0:
+                try:
+                    signal.signal(signal.SIGXFSZ, signal.SIG_IGN)
+                    resource.setrlimit(resource.RLIMIT_FSIZE, (cut, cut))
+                    do_write(root, new_spec)
+                finally:
+                    os._exit(0)
+            os.waitpid(pid, 0)
+            with open(path, 'rb') as fil:
+                on_disk = fil.read()
+            case = {'env on disk': old_spec, 'env being written': new_spec, 'write cut after bytes': cut, 'fault': 'real-write-cut'}
+            sub = Report()
+            allowed = [{}, old_ref] + ([new_ref] if cut >= len(new_blob) else [])
+            got = None
+            try:
+                env = do_read(root, [name])
+                got = {n: deepsnap(env[n]) for n in env}
+            except Exception as exc:  # pylint: disable=broad-except
+                rep.violate(f'C14|read-raises|{type(exc).__name__}|real-write-cut', f'read_env raised {exc!r} after a write cut at byte {cut}', case, size=cut)
+            rep.case(nontrivial=(repr(pair), cut) if 0 < cut < len(new_blob) else None,
+                     outcome=('real-cut', 'absent' if got == {} else ('old' if got == old_ref else ('new' if got == new_ref else 'other'))))
+            if got is not None and got not in allowed:
+                what = 'a mixture of the old and the new entry' if on_disk[:cut] == new_blob[:cut] and len(on_disk) > cut else 'an entry that was never written'
+                rep.violate('C14|mixed-entry|real-write-cut', f'write of {new_spec} over {old_spec} cut after {cut} of {len(new_blob)} bytes: read_env reports {what}: '
+                            f'{str(got)[:160]}', case, size=cut)
+            del sub
+        rep.sample({'env on disk': old_spec, 'env being written': new_spec, 'write cut after bytes': len(new_blob) // 2})
+    finally:
+        shutil.rmtree(root, ignore_errors=True)
+    return rep
+
+
 def _call(job):
     return job[0](job[1])
 
@@ -309,6 +375,7 @@ def run(tier, seed):
     depth = 2 if tier == 'quick' else 3  # plus the first step fixed per job
     firsts = [None] + [('write', k) for k in HIST_ENVS] + [('crash', 'A', 't0', 2), ('crash', 'D', 't1', 3)]
     jobs += [(job_history, (depth, first)) for first in firsts]
+    jobs += [(job_real_crash, pair) for pair in REAL_PAIRS]
     rep = pool.pmap(_call, jobs, seed)
     rep.extra['history_depth'] = depth + 1
     return rep
